@@ -90,6 +90,13 @@ Definition emap (F : eatt -> eatt) (G : gr) : gr := LG (gnodes G) (map (emapf F)
 Definition fin_edge (its : bool) (x : eatt) : eatt := if its then norm_edge x else x.
 Definition fin_graph (its : bool) (G : gr) : gr := if its then normalize_edge_orders G else G.
 
+(** * vocabulary of C10_rule_renumbering_records: a molecule record with every atom-map number k replaced by sg k (same atoms in
+      the same order, same bonds), the induced map on node ids, and "every atom carries a positive map number" *)
+Definition remap_atom (sg : Z -> Z) (a : ratom) : ratom := RAt (r_sym a) (r_arom a) (r_hs a) (r_chg a) (sg (r_map a)).
+Definition remap (sg : Z -> Z) (m : rmol) : rmol := (map (remap_atom sg) (fst m), snd m).
+Definition sN (sg : Z -> Z) (n : N) : N := Z.to_N (sg (Z.of_N n)).
+Definition pos_mapped (a : ratom) : bool := 0 <? r_map a.
+
 (** * observables *)
 Definition t_mols (x : option (option wmol * option wmol)) : tok :=
   topt (fun y : option wmol * option wmol => L [t_wmol (fst y); t_wmol (snd y)]) x.
